@@ -290,20 +290,22 @@ func (c *updater) buildBackendAuthHTTP(d *backData) {
 			secretName = authSecret.Source.Namespace + "/" + secretName
 		}
 		listName := strings.Replace(secretName, "/", "_", 1)
+		// the secret is always read on behalf of the resource that declares it: an
+		// userlist already built for another resource does not grant access to it
+		userb, err := c.cache.GetPasswdSecretContent(
+			authSecret.Source.Namespace,
+			authSecret.Value,
+			[]convtypes.TrackingRef{
+				{Context: convtypes.ResourceHABackend, UniqueName: d.backend.ID},
+				{Context: convtypes.ResourceHAUserlist, UniqueName: listName},
+			},
+		)
+		if err != nil {
+			c.logger.Error("error reading basic authentication on %v: %v", authSecret.Source, err)
+			continue
+		}
 		userlist := c.haproxy.Userlists().Find(listName)
 		if userlist == nil {
-			userb, err := c.cache.GetPasswdSecretContent(
-				authSecret.Source.Namespace,
-				authSecret.Value,
-				[]convtypes.TrackingRef{
-					{Context: convtypes.ResourceHABackend, UniqueName: d.backend.ID},
-					{Context: convtypes.ResourceHAUserlist, UniqueName: listName},
-				},
-			)
-			if err != nil {
-				c.logger.Error("error reading basic authentication on %v: %v", authSecret.Source, err)
-				continue
-			}
 			userstr := string(userb)
 			users, errs := extractUserlist(authSecret.Source.Name, secretName, userstr)
 			for _, err := range errs {
